@@ -37,9 +37,11 @@ def write_annotations(f: Callable) -> Callable:
                 yield item
         if annots is not None and formula in annots:
             for key, values in annots[formula].items():
-                self.write(" :%s" % str(key))
+                if not values:
+                    self.write(" :%s" % str(key))
+                # an attribute has one value: every value gets its keyword
                 for value in values:
-                    self.write(" %s" % str(value))
+                    self.write(" :%s %s" % (str(key), str(value)))
             self.write(')')
     return resf
 
@@ -51,8 +53,10 @@ def write_annotations_dag(f: Callable) -> Callable:
             return res
         items = list()
         for key, values in annots[formula].items():
-            items.append(f' :{key}')
-            items.extend(f' {v}' for v in values)
+            if not values:
+                items.append(f' :{key}')
+            # an attribute has one value: every value gets its keyword
+            items.extend(f' :{key} {v}' for v in values)
         kv = ''.join(items)
         return f'(! {res}{kv})'
     return resf
